@@ -491,7 +491,9 @@ impl num::Float for Q {
     fn min_value() -> Q { Q::from_ratio(BigRational::from_integer(-(BigInt::one() << 1024u32))) }
     fn max_value() -> Q { Q::from_ratio(BigRational::from_integer(BigInt::one() << 1024u32)) }
     fn min_positive_value() -> Q { Q::from_ratio(BigRational::new(BigInt::one(), BigInt::one() << GRID)) }
-    fn epsilon() -> Q { Q::from_ratio(BigRational::new(BigInt::one(), BigInt::one() << P)) }
+    // f64's machine epsilon, kept inline (Q::Sm): a view that consults T::epsilon() in an O(N^2) loop would otherwise push one
+    // big value per call and end the case as inconclusive (arena limit) instead of being compared. The crate does not use it today.
+    fn epsilon() -> Q { Q::Sm(1, 1i64 << 52) }
     fn is_nan(self) -> bool { matches!(self, Q::NaN) }
     fn is_infinite(self) -> bool { matches!(self, Q::PInf | Q::NInf) }
     fn is_finite(self) -> bool { self.is_fin() }
